@@ -136,13 +136,30 @@ func VerifPageSelection() {
 	P := vp.IntRange(0, vp.Bound("P"))
 	T := vp.IntRange(1, vp.Bound("T"))
 	terms := make([]verifTerm, T)
-	sel := make([]string, T)
-	zeroNumber := false
 	for i := range terms {
 		terms[i] = verifDrawTerm()
+	}
+	verifCheckSelection(P, terms)
+}
+
+// VerifPageSelectionEvenOdd: an arbitrary term followed by 'even' or 'odd' (which only add pages that the
+// earlier term did not decide), optionally followed by a third arbitrary term.
+func VerifPageSelectionEvenOdd() {
+	P := vp.IntRange(0, vp.Bound("P"))
+	terms := []verifTerm{verifDrawTerm()}
+	if vp.Choice(2) == 0 {
+		terms = append(terms, verifTerm{shape: vsEven, text: "even"})
+	} else {
+		terms = append(terms, verifTerm{shape: vsOdd, text: "odd"})
+	}
+	verifCheckSelection(P, terms)
+}
+
+func verifCheckSelection(P int, terms []verifTerm) {
+	sel := make([]string, len(terms))
+	for i := range terms {
 		sel[i] = terms[i].text
 	}
-	_ = zeroNumber
 	// reference: decided/selected per page 1..P
 	selected := make([]bool, P+2)
 	decided := make([]bool, P+2)
